@@ -95,6 +95,10 @@ def ensure_deps() -> None:
 # results and statistics
 
 
+class UnitTimeout(BaseException):
+    """a work unit ran into its wall-clock limit (BaseException: not to be swallowed by the code under test)"""
+
+
 class Result:
     """Outcome of the oracle on one case."""
 
@@ -405,12 +409,25 @@ def _run_unit(args):
         pass
     known, _ = load_known()
     known_ids = known_ids_for(known, check.ID)
+    # harness safety: a unit that does not come back (a changed tree that spins where no CPU budget is armed) ends as a harness
+    # error (exit 2: inconclusive) instead of blocking the run for ever
+    import signal
+
+    limit = int(os.environ.get("VERIF_UNIT_WALL_S", 1500 if tier == "quick" else 4 * 3600))
+
+    def _too_long(signum, frame):
+        raise UnitTimeout("unit %s exceeded its wall-clock limit of %d s" % (unit.name, limit))
+
+    signal.signal(signal.SIGALRM, _too_long)
+    signal.setitimer(signal.ITIMER_REAL, limit, 5)
     try:
         unit.fn(check, stats, known_ids=known_ids, **unit.params)
     except HarnessError as exc:
         stats.errors.append("%s: %s" % (unit.name, exc))
     except BaseException as exc:  # noqa
         stats.errors.append("%s: %s\n%s" % (unit.name, exc, traceback.format_exc()))
+    finally:
+        signal.setitimer(signal.ITIMER_REAL, 0)
     return stats
 
 
